@@ -431,8 +431,10 @@ def validate_evidence(ev: dict) -> None:
 
 def write_evidence(ev: dict) -> Path:
     validate_evidence(ev)
-    d = VERIF / "evidence"
-    d.mkdir(exist_ok=True)
+    # evidence/ describes runs against /repo; a run against another tree (VERIF_REPO: a scratch worktree holding a seeded or a
+    # harmless change) leaves it alone and writes under build/tmp instead
+    d = VERIF / "evidence" if REPO.resolve() == Path("/repo") else VERIF / "build" / "tmp" / "evidence_other_tree"
+    d.mkdir(parents=True, exist_ok=True)
     p = d / f"{ev['property_id']}.json"
     tmp = p.with_suffix(".tmp")
     tmp.write_text(json.dumps(ev, indent=1, sort_keys=True, default=str) + "\n")
